@@ -67,6 +67,48 @@ def world():
     return World.cur
 
 
+class InjectedError(RuntimeError):
+    """a non-socket exception raised by a stubbed socket call"""
+
+
+class SymFaults(object):
+    """symbolic fault injection: at every eligible stub operation a solver variable decides
+    whether the call fails (and how), until `max_faults` faults have been injected.
+
+    ops: names of eligible operations ('getaddrinfo','socket','connect','sendall','recv','wait',
+         'shutdown','close','wrap_socket'); kinds: 'oserror' | 'exception'
+    skip: {op: n} -- the first n occurrences of op are not eligible (e.g. the upgrade request)"""
+
+    def __init__(self, ops, kinds=('oserror',), max_faults=1, skip=None, only_sock=None):
+        self.ops = set(ops)
+        self.kinds = list(kinds)
+        self.left = max_faults
+        self.skip = dict(skip or {})
+        self.seen = {}
+        self.injected = []       # (op, occurrence, kind)
+        self.only_sock = only_sock
+
+    def __call__(self, op, sock):
+        if op not in self.ops or self.left <= 0:
+            return
+        if self.only_sock is not None and sock is not None and sock.id != self.only_sock:
+            return
+        n = self.seen.get(op, 0)
+        self.seen[op] = n + 1
+        if n < self.skip.get(op, 0):
+            return
+        k = Ctx.cur.choose(1 + len(self.kinds), 'fault')
+        if k == 0:
+            return
+        kind = self.kinds[k - 1]
+        self.left -= 1
+        self.injected.append((op, n, kind))
+        World.cur.log.append(('fault', op, n, kind))
+        if kind == 'oserror':
+            raise _socket.error(104, 'injected socket error in %s' % op)
+        raise InjectedError('injected non-socket exception in %s' % op)
+
+
 class Script(object):
     """what the peer of one socket does"""
 
@@ -148,9 +190,13 @@ class FakeSocket(object):
         self.w.log.append(('connect', self.id, sa))
 
     def sendall(self, data):
-        self.w.op('sendall', self)
         if isinstance(data, (SymByteArray, SymMemoryView)):
             data = mk_bytes(data._get())
+        try:
+            self.w.op('sendall', self)
+        except BaseException:
+            self.w.log.append(('write-failed', self.id, data))
+            raise
         self.w.log.append(('write', self.id, data))
 
     send = sendall
@@ -491,3 +537,29 @@ def install():
     instrument.install()
     import logging
     logging.disable(logging.CRITICAL)
+
+
+def install_pristine():
+    """replay mode: the real, un-instrumented package with only the environment replaced"""
+    import sys
+    src = os_path_parent(instrument.ROOT)
+    if src not in sys.path:
+        sys.path.insert(0, src)
+    import logging
+    logging.disable(logging.CRITICAL)
+    import lomond
+    import lomond.session, lomond.selectors, lomond.websocket, lomond.frame, lomond.mask, lomond.persist
+    assert os_path_parent(lomond.__file__).rstrip('/') == instrument.ROOT.rstrip('/'), lomond.__file__
+    lomond.session.socket = FakeSocketModule
+    lomond.session.ssl = FakeSSLModule
+    lomond.session.time = FakeTimeModule
+    lomond.session.HAS_SNI = True
+    lomond.selectors.select = FakeSelectModule
+    lomond.websocket.os = FakeOsModule()
+    lomond.frame.make_masking_key = lambda: fake_urandom(4)
+    lomond.mask.make_masking_key = lambda: fake_urandom(4)
+    lomond.persist.random = fake_random
+
+
+def os_path_parent(p):
+    return _os.path.dirname(_os.path.abspath(p))
